@@ -128,11 +128,89 @@ let rec xor_pad (a : M.n list) (m : M.n list) : M.n list =
   | x :: a', [] -> x :: xor_pad a' []
   | x :: a', y :: m' -> byte_tab.((int_of_n x) lxor (int_of_n y)) :: xor_pad a' m'
 
+(* builder arguments and trees *)
+let arg_of_tok (t : string) : M.arg =
+  if t = "nil" then M.ANil
+  else let r = String.sub t 1 (String.length t - 1) in
+    match t.[0] with
+    | 't' -> M.ATag (n_of_str r) | 'd' -> M.AType (n_of_str r) | 'v' -> M.AVal (n_of_str r)
+    | _ -> failwith ("bad arg " ^ t)
+let tok_of_arg = function
+  | M.ATag t -> "t" ^ str_of_n t | M.AType d -> "d" ^ str_of_n d | M.AVal k -> "v" ^ str_of_n k | M.ANil -> "nil"
+let rec bmsg_str (M.BM (tag, dt, v)) =
+  let p = match v with
+    | M.BNone -> "none" | M.BVal a -> tok_of_arg a
+    | M.BKids ks -> "(" ^ String.concat " " (List.map bmsg_str ks) ^ ")" in
+  Printf.sprintf "(%s %s %s)" (str_of_n tag) (str_of_n dt) p
+let berr_str = function
+  | M.Empty -> "empty" | M.NotATag -> "notatag" | M.MissingValue -> "missing" | M.TagOrTypeAsValue -> "tagortype"
+  | M.NoArguments -> "noargs" | M.Fuel -> "FUEL"
+let bres = function M.Ok m -> "OK " ^ bmsg_str m | M.Err e -> "ERR " ^ berr_str e
+(* split on a separator, keeping empty fields *)
+let split_on_string_keep sep s = Str.split_delim (Str.regexp_string sep) s
+
 (* after the first space-separated n fields, the rest of the line *)
 let rest_after (line : string) (n : int) : string =
   let i = ref 0 and c = ref 0 in
   while !c < n && !i < String.length line do (if line.[!i] = ' ' then incr c); incr i done;
   String.sub line !i (String.length line - !i)
+
+(* S key user pass crc ct st rt rbuf level sec nsec mode | conn / conn ... | call ; call ... *)
+let parse_reaction (s : string) : M.reaction =
+  if s = "s" then M.RAnswer ([], false)
+  else if s = "wf" then M.RWriteFail
+  else begin
+    let parts = split_on_string_keep ":" s in
+    let pieces = match parts with
+      | _ :: ps :: _ when ps <> "" ->
+        List.map (fun p -> match String.split_on_char '@' p with
+          | [h; d] -> (bytes_of_hex h, z_of_str d)
+          | [h] -> (bytes_of_hex h, M.Z0)
+          | _ -> failwith "piece") (String.split_on_char '+' ps)
+      | _ -> [] in
+    let eof = match parts with [_; _; "eof"] -> true | _ -> false in
+    M.RAnswer (pieces, eof)
+  end
+let ms_round (ns : M.z) : string =
+  let x = z_of_cz ns in
+  let half = BZ.of_int 500000 and m = BZ.of_int 1000000 in
+  if BZ.geq x (BZ.shift_left BZ.one 62) then BZ.to_string (BZ.div x m)
+  else if BZ.sign x >= 0 then BZ.to_string (BZ.div (BZ.add x half) m)
+  else BZ.to_string (BZ.neg (BZ.div (BZ.add (BZ.neg x) half) m))
+let run_session (line : string) : string =
+  match split_on_string_keep " | " line with
+  | [hd; conns; calls] ->
+    (match String.split_on_char ' ' hd with
+     | ["S"; key; user; pass; crc; ct; st; rt; rbuf; level; sec; nsec; mode] ->
+       let cfg = { M.s_key = bytes_of_hex key; M.s_user = bytes_of_hex user; M.s_pass = bytes_of_hex pass; M.s_crc = (crc <> "false");
+                   M.s_conn_to = z_of_str ct; M.s_send_to = z_of_str st; M.s_recv_to = z_of_str rt; M.s_rbuf = n_of_str rbuf;
+                   M.s_level = n_of_str level; M.s_time = (z_of_str sec, z_of_str nsec); M.s_attached = (mode = "attach") } in
+       let conns = if String.trim conns = "-" then [] else
+         List.map (fun c -> let c = String.trim c in if c = "." || c = "" then [] else List.map parse_reaction (String.split_on_char ',' c))
+           (split_on_string_keep " / " conns) in
+       let calls = List.map (fun c -> let c = String.trim c in
+           if c = "disc" then M.SDisc else M.SSend (msgs_of_sx (sx_of_string (String.sub c 5 (String.length c - 5)))))
+           (split_on_string_keep " ; " calls) in
+       let (evs, rs) = M.session cfg conns calls in
+       let tcp = (mode = "tcp") in
+       let ev_str e = match e with
+         | M.EvDial _ | M.EvDialFail | M.EvFrame _ | M.EvGranted _ -> None
+         | M.EvSetWD (j, d) -> if tcp then None else Some (Printf.sprintf "SETWD %d %s" (int_of_nat j) (ms_round d))
+         | M.EvSetRD (j, d) -> if tcp then None else Some (Printf.sprintf "SETRD %d %s" (int_of_nat j) (ms_round d))
+         | M.EvWrite (j, ct) -> Some (Printf.sprintf "%s %d %s" (if tcp then "FRAME" else "WRITE") (int_of_nat j) (hex_of_bytes ct))
+         | M.EvWriteFail j -> if tcp then None else Some (Printf.sprintf "WRITEFAIL %d" (int_of_nat j))
+         | M.EvRead (j, M.RData b) -> if tcp then None else Some (Printf.sprintf "READ %d %d" (int_of_nat j) (List.length b))
+         | M.EvRead (j, M.REOF) -> if tcp then None else Some (Printf.sprintf "READ %d EOF" (int_of_nat j))
+         | M.EvRead (j, M.RTimeout) -> if tcp then None else Some (Printf.sprintf "READ %d TIMEOUT" (int_of_nat j))
+         | M.EvClose j -> if tcp then None else Some (Printf.sprintf "CLOSE %d" (int_of_nat j))
+         | M.EvLog (l, M.LText _) -> if tcp then None else Some (Printf.sprintf "LOG %d text" (int_of_n l))
+         | M.EvLog (l, M.LTree _) -> if tcp then None else Some (Printf.sprintf "LOG %d tree" (int_of_n l))
+         | M.EvLog (l, M.LDump _) -> if tcp then None else Some (Printf.sprintf "LOG %d dump" (int_of_n l)) in
+       let evs = List.filter_map ev_str evs in
+       let res_str = function M.Ok0 ms -> "OK " ^ sx_of_msgs ms | M.Err0 _ -> "ERR" in
+       String.concat " ; " evs ^ " || " ^ String.concat " ; " (List.map res_str rs)
+     | _ -> "?")
+  | _ -> "?"
 
 let handle (line : string) : string =
   match String.split_on_char ' ' line with
@@ -156,6 +234,30 @@ let handle (line : string) : string =
       (hex_of_string (string_of_cstring js)) (opt_n (M.unmarshal_dt js))
   | ["DTNAME"; h] -> opt_n (M.dt_of_name (cstring_of_string (string_of_hex h)))
   | ["DTV"; _] -> "SKIP"
+  (* ---------------- C18 request builder ---------------- *)
+  | "B" :: toks -> bres (M.b_create_request (List.map arg_of_tok toks))
+  | "BM" :: _ ->
+    let lists = List.tl (split_on_string_keep " | " line) in
+    (match M.b_create_requests (List.map (fun l -> List.map arg_of_tok (List.filter (fun x -> x <> "") (String.split_on_char ' ' l))) lists) with
+     | M.Ok ms -> "OK " ^ String.concat " " (List.map bmsg_str ms)
+     | M.Err e -> "ERR " ^ berr_str e)
+  (* ---------------- C16 configuration ---------------- *)
+  | ["CFG"; addr; user; pass; key; port; hb; conn; send; recv; ck; rbuf] ->
+    let cks = match ck with "nil" -> M.CNil | "true" -> M.CBool true | "false" -> M.CBool false | k -> M.COther (n_of_str k) in
+    let c = { M.address = bytes_of_hex addr; M.user = bytes_of_hex user; M.password = bytes_of_hex pass; M.key = bytes_of_hex key;
+              M.port = n_of_str port; M.heartbeat = z_of_str hb; M.conn_to = z_of_str conn; M.send_to = z_of_str send;
+              M.recv_to = z_of_str recv; M.use_checksum = cks; M.rbuf_blocks = n_of_str rbuf } in
+    (match M.check c with
+     | M.Inl c' ->
+       Printf.sprintf "OK port=%s hb=%s conn=%s send=%s recv=%s ck=%s rbuf=%s key=%s" (str_of_n c'.M.port) (str_of_z c'.M.heartbeat)
+         (str_of_z c'.M.conn_to) (str_of_z c'.M.send_to) (str_of_z c'.M.recv_to)
+         (match c'.M.use_checksum with M.CBool b -> b01 b | _ -> "?") (str_of_n c'.M.rbuf_blocks) (hex_of_bytes (M.key_of c'))
+     | M.Inr (M.Missing fs) ->
+       "ERR missing=" ^ String.concat "," (List.map (function M.FAddress -> "address" | M.FUser -> "username" | M.FPassword -> "password" | M.FKey -> "key") fs)
+     | M.Inr (M.BadChecksum _) -> "ERR checksum")
+  (* ---------------- client sessions ---------------- *)
+  | "S" :: _ -> run_session line
+  | "V" :: _ -> if M.c_valid (msgs_of_sx (sx_of_string (rest_after line 1))) then "OK" else "ERR"
   (* ---------------- codec ---------------- *)
   | "W" :: key :: iv :: crc :: sec :: nsec :: _ ->
     (* W key iv crc sec nsec (msgs): rscp.Write on the chain iv, then rscp.Read of the result on the same chain *)
